@@ -33,7 +33,8 @@ Inductive uparam := UNum (v : Z) | UArr (k t : nat) | UExpr (e k t : nat).
 Record rcmd := mkR { r_op : nat; r_params : list param; r_regs : list nat;
                      r_meas : bool; r_dag : bool; r_sel : bool;
                      r_ctor : bool  (* type(op)( *op.p ) is a well-formed constructor call; false for
-                                       Fouriergate, whose p = [pi/2] while __init__ takes no argument *) }.
+                                       Fouriergate, whose p = [pi/2] while __init__ takes no argument.
+                                       Only the old apply_op (Old.v) depended on it. *) }.
 Record ucmd (M : Type) := mkU { u_op : nat; u_params : list uparam; u_modes : list M;
                                 u_dag : bool; u_sel : bool }.
 Arguments mkU {M}. Arguments u_op {M}. Arguments u_params {M}. Arguments u_modes {M}.
@@ -47,23 +48,8 @@ Fixpoint mapM {A B} (f : A -> option B) (l : list A) : option (list B) :=
   | x :: l' => match f x, mapM f l' with Some y, Some r => Some (y :: r) | _, _ => None end
   end.
 
-(* apply_op:  params[i] = self.parameters[params[i].name][t % self.timebins]  for symbolic params
-   (a non-atomic expression has no .name -> AttributeError, modelled as None), then
-   self.append(cmd.op.__class__ applied to params, modes): the rebuilt operation has default dagger/select. *)
-Definition subst_impl (timebins t : nat) (p : param) : option uparam :=
-  match p with
-  | PNum v => Some (UNum v)
-  | PSym k => Some (UArr k (t mod timebins))
-  | PExpr _ _ => None
-  end.
-Definition apply_op {M} (timebins : nat) (c : rcmd) (modes : list M) (t : nat) : option (ucmd M) :=
-  match mapM (subst_impl timebins t) (r_params c) with
-  | Some ps => if r_ctor c then Some (mkU (r_op c) ps modes false false) else None   (* TypeError *)
-  | None => None                                                                    (* AttributeError *)
-  end.
-
-(* what the explicit loop written by hand does: the same operation (flags kept) with every
-   parameter evaluated at the time bin *)
+(* the operation at a time bin: the same operation (flags kept) with every parameter evaluated at
+   the bin -- this is also what the explicit loop written by hand does *)
 Definition subst_spec (timebins t : nat) (p : param) : uparam :=
   match p with
   | PNum v => UNum v
@@ -72,6 +58,14 @@ Definition subst_spec (timebins t : nat) (p : param) : uparam :=
   end.
 Definition spec_op {M} (timebins : nat) (c : rcmd) (modes : list M) (t : nat) : ucmd M :=
   mkU (r_op c) (map (subst_spec timebins t) (r_params c)) modes (r_dag c) (r_sel c).
+
+(* apply_op (after fix 253979f): the operation is copied (copy.copy(cmd.op)), so dagger, select and
+   everything else it carries are kept, and every parameter has the loop variables substituted by
+   their value at the time bin, also inside composite expressions.  It cannot fail any more; the
+   option type is kept only so that the unrolling functions keep their shape (see Old.v for the
+   previous, partial behaviour). *)
+Definition apply_op {M} (timebins : nat) (c : rcmd) (modes : list M) (t : nat) : option (ucmd M) :=
+  Some (spec_op timebins c modes t).
 
 (* _get_modes(cmd, q) = itemgetter of the inds of cmd.reg, applied to q *)
 Definition get_modes (c : rcmd) (q : list nat) : list nat := map (fun r => nth r q 0) (r_regs c).
@@ -208,15 +202,15 @@ Fixpoint register_of (i : nat) (regs : list bool) : list nat :=
   end.
 Definition register (st : pstate) : list nat := register_of 0 (st_regs st).
 
-(* deactivate the last k active entries *)
-Fixpoint deact_from_end (k : nat) (rev_regs : list bool) : list bool :=
+(* remove the last k active entries (del self.reg_refs[ref.ind] for ref in self.register[-k:]) *)
+Fixpoint remove_from_end (k : nat) (rev_regs : list bool) : list bool :=
   match k, rev_regs with
   | 0, _ => rev_regs
   | _, [] => []
-  | S k', true :: r => false :: deact_from_end k' r
-  | S _, false :: r => false :: deact_from_end k r
+  | S k', true :: r => remove_from_end k' r
+  | S _, false :: r => false :: remove_from_end k r
   end.
-Definition delete_last (k : nat) (regs : list bool) : list bool := rev (deact_from_end k (rev regs)).
+Definition delete_last (k : nat) (regs : list bool) : list bool := rev (remove_from_end k (rev regs)).
 
 Definition is_unrolled (st : pstate) : bool :=
   match st_unrolled st, st_space st with None, None => false | _, _ => true end.
@@ -245,43 +239,41 @@ Section Machine.
   Definition build (space : bool) (shots : nat) (q : list nat) : list (ucmd nat) :=
     match unroll_program N sh space timebins cs shots q with Some u => u | None => [] end.
 
+  (* unroll (after fix 5a2f473): the space-unrolled test comes first and leaves the state untouched;
+     the lock flag is restored on every path (try/finally). *)
   Definition do_unroll (shots : nat) (st : pstate) : pstate * outcome :=
-    let lk := st_locked st in
     match st_unrolled st with
     | Some u =>
       if match st_shots st with Some s => Nat.eqb s shots | None => false end
-      then (mkS (CUnrolled u) (st_regs st) (st_init st) false (st_unrolled st) (st_space st) (st_shots st) (st_added st), Done)
+      then (mkS (CUnrolled u) (st_regs st) (st_init st) (st_locked st) (st_unrolled st) (st_space st) (st_shots st) (st_added st), Done)
       else
-        (* roll(): clears both caches, so the space-unrolled test below cannot fire *)
-        let st1 := do_roll (mkS (st_circ st) (st_regs st) (st_init st) false (st_unrolled st) (st_space st) (st_shots st) (st_added st)) in
+        let st1 := do_roll st in
         let u' := build false shots (register st1) in
-        (mkS (CUnrolled u') (st_regs st1) (st_init st1) lk (Some u') None (Some shots) (st_added st1), Done)
+        (mkS (CUnrolled u') (st_regs st1) (st_init st1) (st_locked st) (Some u') None (Some shots) (st_added st1), Done)
     | None =>
       match st_space st with
-      | Some _ =>
-        (mkS (st_circ st) (st_regs st) (st_init st) false None (st_space st) (Some shots) (st_added st), ValueError)
+      | Some _ => (st, ValueError)
       | None =>
         let u' := build false shots (register st) in
-        (mkS (CUnrolled u') (st_regs st) (st_init st) lk (Some u') None (Some shots) (st_added st), Done)
+        (mkS (CUnrolled u') (st_regs st) (st_init st) (st_locked st) (Some u') None (Some shots) (st_added st), Done)
       end
     end.
 
-  Definition do_space_unroll_fresh (shots : nat) (lk : bool) (st : pstate) : pstate * outcome :=
-    let st1 := do_roll (mkS (st_circ st) (st_regs st) (st_init st) false (st_unrolled st) (st_space st) (st_shots st) (st_added st)) in
+  Definition do_space_unroll_fresh (shots : nat) (st : pstate) : pstate * outcome :=
+    let st1 := do_roll st in
     let added := (Z.of_nat timebins - st_init st1 + (Z.of_nat concurr - 1))%Z in
     let regs2 := if (0 <? added)%Z then st_regs st1 ++ repeat true (Z.to_nat added) else st_regs st1 in
     let init2 := if (0 <? added)%Z then (st_init st1 + added)%Z else st_init st1 in
     let u' := build true shots (register_of 0 regs2) in
-    (mkS (CUnrolled u') regs2 init2 lk None (Some u') (Some shots) added, Done).
+    (mkS (CUnrolled u') regs2 init2 (st_locked st) None (Some u') (Some shots) added, Done).
 
   Definition do_space_unroll (shots : nat) (st : pstate) : pstate * outcome :=
-    let lk := st_locked st in
     match st_space st with
     | Some u =>
       if match st_shots st with Some s => Nat.eqb s shots | None => false end
-      then (mkS (CUnrolled u) (st_regs st) (st_init st) false (st_unrolled st) (st_space st) (st_shots st) (st_added st), Done)
-      else do_space_unroll_fresh shots lk st
-    | None => do_space_unroll_fresh shots lk st
+      then (mkS (CUnrolled u) (st_regs st) (st_init st) (st_locked st) (st_unrolled st) (st_space st) (st_shots st) (st_added st), Done)
+      else do_space_unroll_fresh shots st
+    | None => do_space_unroll_fresh shots st
     end.
 
   Definition step (st : pstate) (c : call) : pstate * outcome :=
